@@ -1163,6 +1163,39 @@ def network_links_direct(seed, variant):
     return sim, stats
 
 
+@scenario
+def network_links_signed_jitter(seed, variant):
+    """NetworkLinks whose jitter distribution has negative samples larger than the base latency (a zero-mean
+    jitter, or a shifted constant): base + jitter can fall below zero for a packet."""
+    from happysimulator import NetworkLink
+    from happysimulator.distributions.latency_distribution import LatencyDistribution
+
+    _seed(seed)
+    v = variant % 3
+
+    class SymmetricJitter(LatencyDistribution):
+        def __init__(self, spread, rng_seed):
+            super().__init__(0.0)
+            self._spread = spread
+            self._rng = random.Random(rng_seed)
+
+        def get_latency(self, current_time):
+            return Duration.from_seconds(self._rng.uniform(-self._spread, self._spread))
+
+    sink = Sink("sink")
+    jitter = [SymmetricJitter(0.005, seed), ConstantLatency(0.010) - 0.015, SymmetricJitter(0.02, seed + 1)][v]
+    link = NetworkLink(name="link", latency=ConstantLatency([0.002, 0.002, 0.01][v]), jitter=jitter, egress=sink)
+    hop = NetworkLink(name="hop", latency=ConstantLatency(0.001), egress=link)
+    srcs = [req_source("src0", link, [60, 30, 90][v], poisson=False, stop_after=2.0),
+            req_source("src1", hop, [25, 50, 40][v], poisson=True, stop_after=2.0)]
+    sim = Simulation(sources=srcs, entities=[sink, link, hop], duration=4.0)
+
+    def stats():
+        return {"sink": sink_stats(sink), "links": [_clean(l.link_stats) for l in (link, hop)]}
+
+    return sim, stats
+
+
 # ---------------------------------------------------------------------------
 # messaging
 # ---------------------------------------------------------------------------
@@ -3401,6 +3434,10 @@ def sketching_collectors(seed, variant):
 # fault injection
 # ---------------------------------------------------------------------------
 
+# a module-level constant handed to every build of the model (as user code would write it)
+_RANDOM_PARTITION_NODES = ["frontend", "worker0", "worker1", "worker2"]
+
+
 @scenario
 def faults_schedule_pipeline(seed, variant):
     """FaultSchedule (crash, pause, partition, latency, loss, random partitions) on a small pipeline."""
@@ -3458,8 +3495,8 @@ def faults_schedule_pipeline(seed, variant):
     faults.add(InjectLatency("frontend", "worker1", extra_ms=[50.0, 200.0, 5.0][v], start=0.5, end=1.5))
     faults.add(InjectPacketLoss("frontend", "worker2", loss_rate=[0.3, 0.8, 0.1][v], start=3.0, end=4.0))
     faults.add(PauseNode("batch_server", start=2.0, end=2.6))
-    if v == 2:
-        faults.add(RandomPartition(["frontend", "worker0", "worker1", "worker2"], mtbf=1.0, mttr=0.3, seed=seed))
+    if v != 1:
+        faults.add(RandomPartition(_RANDOM_PARTITION_NODES, mtbf=1.0, mttr=0.3, seed=seed))
     cancelled = faults.add(CrashNode("frontend", at=4.0))
     cancelled.cancel()
     srcs = [req_source("src", frontend, [60, 30, 120][v], poisson=True, stop_after=5.0),
